@@ -238,8 +238,8 @@ func (b *builder) runAddr(c *vrun.Ctx, rc rawCase) error {
 		if !sameAbs(as, ex.Str.Form, ex.Str.S) {
 			bad("string-form", fmt.Sprintf("encodes as %q = %v, specification %v", s, a.describe(), ex.Str.S))
 		}
-		if o.d.Accept != ex.Decision.Accept || (o.d.Accept && o.d.Kind != ex.Decision.Kind) {
-			bad("round-trip", fmt.Sprintf("decoding %q on its own network: %s, specification %s", s, o.d, ex.Decision))
+		if o.want.Accept != ex.Decision.Accept || o.want.Kind != ex.Decision.Kind {
+			return fmt.Errorf("%s address %q on %s: the decision table says %s, the address case says %s", cs.AKind, s, cs.Net, o.want, ex.Decision)
 		}
 		var nets []string
 		for _, n := range b.t.w.names {
